@@ -245,3 +245,41 @@ var _ net.Conn
 //@   ensures err == nil && data != nil ==> !imap.DynamicNumSet(data.All)
 //@   loop 0 locals (data *imap.SearchData)
 //@   loop 0 invariant data != nil && !imap.DynamicNumSet(data.All)
+
+// Routing of an untagged STATUS response: it goes to a pending STATUS command
+// for that very mailbox, or to a pending LIST ... RETURN (STATUS) command
+// whose current entry is that mailbox - and to nothing else. The predicate
+// must not dereference a LIST command's missing current entry.
+//
+//@ pure
+func statusGoesTo(cmd command, mailbox string) bool {
+	switch cmd := cmd.(type) {
+	case *StatusCommand:
+		return cmd.mailbox == mailbox
+	case *ListCommand:
+		return cmd.returnStatus && cmd.pendingData != nil && cmd.pendingData.Mailbox == mailbox
+	}
+	return false
+}
+
+// cmdNonNil: pending commands are never typed nil pointers (they are created
+// by the command constructors and registered by beginCommand).
+//
+//@ pure
+func cmdNonNil(cmd command) bool {
+	switch cmd := cmd.(type) {
+	case *StatusCommand:
+		return cmd != nil
+	case *ListCommand:
+		return cmd != nil
+	}
+	return true
+}
+
+//@ closure 0 of func (c *Client) handleStatus() (err error)
+//@   props C12:post,pre@call C11:nil,bounds,assert-type
+//@   params (cmd command)
+//@   captures (data *imap.StatusData)
+//@   results (result bool)
+//@   requires data != nil && cmdNonNil(cmd)
+//@   ensures result == statusGoesTo(cmd, data.Mailbox)
